@@ -4,7 +4,7 @@ use compact_str::CompactString;
 
 use super::{JsExprWriter, JsFunctionScopeWriter, JsIdent, ScopeVar, ScopeVarLvaluePath};
 use crate::{
-    escape::gen_lit_str,
+    escape::{gen_lit_float, gen_lit_str},
     parse::expr::{ArrayFieldKind, Expression, ObjectFieldKind},
     stringify::expr::ExpressionLevel,
     TmplError,
@@ -483,7 +483,7 @@ impl Expression {
                 PathAnalysisState::NotInPath
             }
             Expression::LitFloat { value: x, .. } => {
-                write!(value, "{}", x)?;
+                write!(value, "{}", gen_lit_float(*x))?;
                 PathAnalysisState::NotInPath
             }
             Expression::LitBool { value: x, .. } => {
